@@ -452,4 +452,37 @@ theorem C18_single_scan_order_witness :
       = ["label", "text", "short_label"] := by
   decide
 
+/-! ## nested aggregate type expressions -/
+
+def AggT.levels : AggT → List (String × Int × Option Int)
+  | .leaf _ => []
+  | .agg k lo hi i => (k, lo, hi) :: AggT.levels i
+
+def AggT.leafName : AggT → String
+  | .leaf b => b
+  | .agg _ _ _ i => AggT.leafName i
+
+/-- An aggregate of aggregates is emitted level by level with the declared kind and bounds at every level, over the
+(escaped) declared base type name — for every nesting depth. -/
+theorem C18_aggregate_levels_mirrored (a : AggT) :
+    AggT.levels (a.mapLeaf pyName) = AggT.levels a ∧ AggT.leafName (a.mapLeaf pyName) = pyName (AggT.leafName a) := by
+  induction a with
+  | leaf b => exact ⟨rfl, rfl⟩
+  | agg k lo hi i ih => exact ⟨by simp [AggT.mapLeaf, AggT.levels, ih.1], by simp [AggT.mapLeaf, AggT.leafName, ih.2]⟩
+
+/-- Exactly one level of an emitted aggregate expression carries `scope = schema_scope`: the innermost one, the level
+whose base type is given by name (the runtime looks a name up in the scope of the level that holds it). -/
+theorem C18_aggregate_scope_at_innermost_level (a : AggT) (h : 1 ≤ a.depth) : a.scopedLevels = [a.depth - 1] := by
+  induction a with
+  | leaf b => simp [AggT.depth] at h
+  | agg k lo hi i ih =>
+    cases i with
+    | leaf b => simp [AggT.scopedLevels, AggT.depth]
+    | agg k' lo' hi' i' =>
+      have hd : 1 ≤ (AggT.agg k' lo' hi' i').depth := by simp [AggT.depth]
+      have := ih hd
+      simp only [AggT.scopedLevels, AggT.depth] at this ⊢
+      rw [this]
+      simp
+
 end StepModel.GenPy
